@@ -173,8 +173,12 @@ def search(ctx, broken):
     note = (f"  [search aimed at: {', '.join(sorted(regions))}]" if regions else "") + (f"  [source change: {desc[0][:200]}]" if desc else "")
     for reg, cfg, ops in aimed:
         ops = [dict(o) for o in ops]
-        trace, _ = L.run_real(cfg, ops)
-        msg = L.monitor(cfg, ops, trace)
+        try:
+            trace, _ = L.run_real(cfg, ops)
+            msg = L.monitor(cfg, ops, trace)
+        except Exception as ex:       # the harness itself could not evaluate this sequence: not a verdict
+            ctx.notes.append(f"aimed sequence not evaluated ({type(ex).__name__}: {ex}): cfg={cfg} ops={ops[:6]}")
+            continue
         if msg:
             _report(ctx, cfg, ops, msg, note)
             return True
